@@ -215,9 +215,40 @@ func TestVerifC18Codecs(t *testing.T) {
 	rng := verifkit.Stream("c18codec")
 	n := verifkit.Scale(5000, 100000)
 	codecs := []vfStrictCodec{StrictProtoCodec{}, StrictJSONCodec{}}
+	// encodings handed out earlier must stay intact while later ones are produced (no shared buffers)
+	type held struct {
+		codec vfStrictCodec
+		kind  string
+		data  []byte
+		copy  []byte
+		msg   proto.Message
+	}
+	var holding []held
+	checkHeld := func() {
+		for _, h := range holding {
+			if !bytes.Equal(h.data, h.copy) {
+				rep.Violation("conv/codec/"+h.codec.Name()+"/"+h.kind+"-buffer-reused", fmt.Sprintf("bytes returned by %s were modified by a later call", h.kind), map[string]any{"codec": h.codec.Name(), "type": string(h.msg.ProtoReflect().Descriptor().FullName())})
+				continue
+			}
+			out := h.msg.ProtoReflect().New().Interface()
+			if err := h.codec.Unmarshal(h.data, out); err != nil || !proto.Equal(out, h.msg) {
+				rep.Violation("conv/codec/"+h.codec.Name()+"/"+h.kind+"-held-encoding-changed", "an encoding kept from an earlier call no longer decodes to its message", nil)
+			}
+		}
+		holding = holding[:0]
+	}
 	for i := 0; i < n; i++ {
 		m := vfRandConformanceMessage(rng)
+		if i%4 == 3 {
+			checkHeld()
+		}
 		for _, c := range codecs {
+			if d, err := c.MarshalStable(m); err == nil {
+				holding = append(holding, held{c, "MarshalStable", d, append([]byte(nil), d...), m})
+			}
+			if d, err := c.Marshal(m); err == nil {
+				holding = append(holding, held{c, "Marshal", d, append([]byte(nil), d...), m})
+			}
 			rep.Eval(1)
 			rep.DistinctKey(c.Name(), m)
 			w := map[string]any{"codec": c.Name(), "type": string(m.ProtoReflect().Descriptor().FullName()), "message": verifkit.Trunc(fmt.Sprint(m), 400)}
